@@ -323,13 +323,17 @@ TIES = [Tie("serialization", "tie/drivers/ser_drv.cpp", "Extract_Ser.v", "ser_dr
             predicate="driver", nontrivial=lambda c: not c.endswith(" -"))]
 
 LEVEL_TEXT = ("Coq theorems for ALL inputs about Gallina transcriptions of WriteCompactSize/ReadCompactSize, VARINT, byte-vector and "
-              "vector (de)serialisation, SerializeTransaction/UnserializeTransaction (witness marker/flag rules) and HexStr/TryParseHex: "
-              "round trips, and canonicity (whatever a decoder accepts re-encodes to exactly the bytes it consumed, so non-canonical compact "
-              "sizes, flags other than 1 and superfluous witness records can never be accepted). Models tied to the real code by differential "
-              "execution against an independent Python serialiser's bytes and by generated constants.")
+              "vector (de)serialisation, SerializeTransaction/UnserializeTransaction (witness marker/flag rules), block headers and blocks, "
+              "HexStr/TryParseHex, ConvertBits with EncodeBase64/DecodeBase64 and EncodeBase32/DecodeBase32, EncodeBase58/DecodeBase58 "
+              "(big-number arrays, carry loops, asserts), FormatMoney/ParseMoney: round trips, and canonicity (whatever a decoder accepts re-encodes to exactly the "
+              "bytes it consumed, so non-canonical compact sizes, flags other than 1, superfluous witness records, wrong base64 padding "
+              "can never be accepted). Models tied to the real code by differential execution against an independent Python "
+              "serialiser's bytes and by generated constants (MAX_SIZE, the HexDigit table).")
 LEVEL_NOTE = ("Proved: compact size, varint, byte vectors, vectors, transactions (both directions, with the exact side condition for the "
-              "empty-vin ambiguity), hex. Base64/base32/base58 are modelled function by function and compared with the real code on every "
-              "character and padding/length boundary; their round-trip theorems are listed in Properties_C48.v where proved. Not modelled: "
-              "txid/wtxid hashing (needs SHA256), block/header and P2P message payloads, ParseMoney/FormatMoney, ToIntegral. "
-              "Trusted: Coq kernel; dump_params; extraction (ExtrOcamlBasic) and the OCaml/C++ driver glue.")
-TECHNIQUE = "Coq proof (induction over byte streams, canonical-form lemmas, exhaustive byte tables by vm_compute) + differential correspondence"
+              "empty-vin ambiguity), headers, blocks, hex (both directions), ConvertBits (both directions), base64 (both directions), base32 "
+              "and base58 round trips (base58 including that the 138/100 and 733/1000 array sizes always suffice, so the asserts never fire). "
+              "ParseMoney(FormatMoney n) = n on [0, MAX_MONEY] is proved. Modelled and compared with the real code but NOT proved: base32/base58/money canonical direction "
+              "(base32 accepts upper case, base58 accepts surrounding white space). Not modelled: txid/wtxid hashing and Base58Check "
+              "(need SHA256), P2P message payloads, ToIntegral. Trusted: Coq kernel; dump_params; extraction (ExtrOcamlBasic) and the "
+              "OCaml/C++ driver glue.")
+TECHNIQUE = "Coq proof (induction over byte streams, canonical-form lemmas, digit-value invariants for the bit and big-number loops, exhaustive byte tables by vm_compute) + differential correspondence"
